@@ -25,6 +25,9 @@
                                                (∧ the mirrored validation test)
     4. the forms `get_config_pipeline` can deliver (`checkPipelineSection_no_pipeline`,
        `checkPipelineSection_not_dict`)
+    5. non-vacuity examples
+    6. `checkPipelineSection_resultOk`: the executable specification `ConfigSpec.resultOk` (what the
+       harness evaluates on the implementation's result) holds of the model's result
 -/
 import PandoraModel.Properties.C05
 import PandoraModel.Lemmas.ConfigMerge
@@ -992,5 +995,243 @@ example :
     Machine.hasKind .validation (Dict.keys P) = true ∧ (r.dispSource.isStr && l.dispSource.isNull) = true ∧
     isOk (checkPipelineSection noOracle {} registry [("pipeline", .obj P)] l r {}) = false ∧
     isOk (checkPipelineSection noOracle {} registry [("pipeline", .obj P)] l l {}) = true := by decide
+
+
+/-! ### 6. The executable specification of the result (`ConfigSpec.resultOk`) -/
+
+theorem take_of_keys_prefix : ∀ (cfg out : Dict) (X : List String), Dict.keys out = Dict.keys cfg ++ X →
+    (Dict.keys out).Nodup → (∀ k u, Dict.lookup cfg k = some u → Dict.lookup out k = some u) →
+    out.take cfg.length = cfg := by
+  intro cfg
+  induction cfg with
+  | nil => intro out X _ _ _; simp
+  | cons kv rest ih =>
+    intro out X hk hnd hl
+    obtain ⟨k, u⟩ := kv
+    cases out with
+    | nil => simp [Dict.keys] at hk
+    | cons kv' out' =>
+      obtain ⟨k', v⟩ := kv'
+      simp only [Dict.keys, List.map_cons, List.cons_append, List.cons.injEq] at hk
+      obtain ⟨rfl, hk2⟩ := hk
+      have hv : v = u := by
+        have := hl k' u (by simp [Dict.lookup])
+        simpa [Dict.lookup] using this
+      subst hv
+      simp only [Dict.keys, List.map_cons, List.nodup_cons] at hnd
+      have hknr : k' ∉ Dict.keys rest := by
+        intro hm; apply hnd.1
+        have : k' ∈ List.map (fun x => x.1) out' := by
+          have h2 : List.map (fun x => x.1) out' = Dict.keys rest ++ X := hk2
+          rw [h2]; exact List.mem_append_left _ hm
+        exact this
+      simp only [List.length_cons, List.take_succ_cons, List.cons.injEq, true_and]
+      apply ih out' X hk2 hnd.2
+      intro k2 u2 h2
+      have hne : k' ≠ k2 := by
+        intro e; subst e
+        exact hknr (Merge.mem_keys_of_lookup h2)
+      have := hl k2 u2 (by simp [Dict.lookup, hne, h2])
+      simpa [Dict.lookup, hne] using this
+
+theorem lookup_append (a b : Dict) (k : String) :
+    Dict.lookup (a ++ b) k = match Dict.lookup a k with | some v => some v | none => Dict.lookup b k := by
+  induction a with
+  | nil => simp [Dict.lookup]
+  | cons kv rest ih =>
+    obtain ⟨k', v⟩ := kv
+    by_cases h : k' = k <;> simp [Dict.lookup, h, ih]
+
+theorem deepRwD_leaves (d : Dict) (h : ∀ kv ∈ d, kv.2.isObj = false) : Merge.deepRwD d = rewriteDict d := by
+  induction d with
+  | nil => simp [rewriteDict]
+  | cons kv rest ih =>
+    obtain ⟨k, v⟩ := kv
+    simp only [Merge.deepRwD_cons, rewriteDict, List.map_cons, List.cons.injEq, Prod.mk.injEq, true_and]
+    exact ⟨Merge.deepRw_leaf v (h (k, v) (by simp)), by
+      have := ih (fun kv hm => h kv (List.mem_cons_of_mem _ hm)); simpa [rewriteDict] using this⟩
+
+theorem defaultOf_isSome_of_mem (acts : List Action) (k : String) (h : k ∈ defaultKeys acts) :
+    (defaultOf acts k).isSome = true := by
+  induction acts with
+  | nil => simp [defaultKeys] at h
+  | cons a rest ih =>
+    cases a with
+    | default k0 v0 =>
+      simp only [defaultKeys, List.mem_cons] at h
+      by_cases e : k0 = k
+      · simp [defaultOf, e]
+      · rcases h with h | h
+        · exact absurd h.symm e
+        · simp [defaultOf, e, ih h]
+    | defaultElifNaN k0 v0 =>
+      simp only [defaultKeys, List.mem_cons] at h
+      by_cases e : k0 = k
+      · simp [defaultOf, e]
+      · rcases h with h | h
+        · exact absurd h.symm e
+        · simp [defaultOf, e, ih h]
+    | guardNe _ _ _ => simp only [defaultKeys] at h; simp [defaultOf, ih h]
+    | refuseGrids => simp only [defaultKeys] at h; simp [defaultOf, ih h]
+
+/-- documentation table and registry name the method of a kind under the same key -/
+theorem method_keys_agree :
+    docTable.all (fun d => registry.all (fun kd => kd.kind != d.kind || kd.methodKey == d.methodKey)) = true := by
+  decide
+
+/-- `defaultsAdded` (the executable clause "every omitted documented parameter appears, with the
+    documented default when it is settled; nothing else is added") of what a class check returns -/
+theorem classCheck_defaultsAdded {o : Oracle} {c : ClassDesc} {d : DocClass} {l r : ImgInfo} {ucfg cfg out : Dict}
+    (hwf : wfActions c.actions = true) (hag : defaultsAgree c d = true)
+    (hkeysU : Dict.keys cfg = Dict.keys ucfg) (hnd : (Dict.keys out).Nodup)
+    (hkept : ∀ k u, Dict.lookup cfg k = some u → Dict.lookup out k = some u)
+    (h : classCheck o c l r cfg = .ok out) : defaultsAdded d ucfg out = true := by
+  obtain ⟨hdef, hkeys⟩ := classCheck_defaults_added hwf h
+  simp only [defaultsAgree, Bool.and_eq_true, List.all_eq_true, List.any_eq_true, beq_iff_eq] at hag
+  obtain ⟨⟨⟨⟨hparams, hdk⟩, _⟩, _⟩, _⟩ := hag
+  have hlen : ucfg.length = cfg.length := by
+    have := congrArg List.length hkeysU
+    simpa [Dict.keys] using this.symm
+  have htake : out.take cfg.length = cfg := take_of_keys_prefix cfg out _ hkeys hnd hkept
+  have hsplit : out = cfg ++ out.drop cfg.length := by
+    conv => lhs; rw [← List.take_append_drop cfg.length out, htake]
+  have hkeysAdded : Dict.keys (out.drop cfg.length) =
+      (defaultKeys c.actions).filter (fun k => !(Dict.keys cfg).contains k) := by
+    have h1 : Dict.keys out = Dict.keys cfg ++ Dict.keys (out.drop cfg.length) := by
+      conv => lhs; rw [hsplit]
+      simp [Dict.keys]
+    rw [hkeys] at h1
+    exact (List.append_cancel_left h1).symm
+  have hlookAdded : ∀ k, k ∉ Dict.keys cfg → Dict.lookup (out.drop cfg.length) k = Dict.lookup out k := by
+    intro k hk
+    conv => rhs; rw [hsplit, lookup_append, (Merge.lookup_none_iff cfg k).2 hk]
+  unfold defaultsAdded
+  simp only [Bool.and_eq_true, List.all_eq_true, List.any_eq_true, beq_iff_eq, List.mem_filter,
+    Bool.not_eq_true', hlen]
+  refine ⟨⟨?_, ?_⟩, (Merge.nodup_iff out).2 hnd⟩
+  · intro kv hkv
+    have hin : kv.1 ∈ Dict.keys (out.drop cfg.length) := List.mem_map_of_mem (f := (·.1)) hkv
+    rw [hkeysAdded, List.mem_filter] at hin
+    obtain ⟨hdkm, hnc⟩ := hin
+    obtain ⟨p, hp, hpn⟩ := hdk kv.1 hdkm
+    refine ⟨p, ⟨hp, ?_, ?_⟩, hpn⟩
+    · have : kv.1 ∉ Dict.keys ucfg := by rw [← hkeysU]; simpa using hnc
+      rw [hpn]
+      cases hh : Dict.hasKey ucfg kv.1
+      · rfl
+      · exact absurd ((Merge.hasKey_iff_mem_keys ucfg kv.1).1 hh) this
+    · have hsome := defaultOf_isSome_of_mem c.actions kv.1 hdkm
+      have hpa := hparams p hp
+      cases hpd : p.default with
+      | optional =>
+        simp only [hpd, Bool.and_eq_true, Option.isNone_iff_eq_none] at hpa
+        rw [hpn] at hpa
+        rw [hpa.1] at hsome; cases hsome
+      | value v => rfl
+      | unsettled => rfl
+  · intro p ⟨hp, hnk, hno⟩
+    have hnotin : p.name ∉ Dict.keys cfg := by
+      rw [hkeysU, ← Merge.hasKey_iff_mem_keys]; simp [hnk]
+    rw [hlookAdded p.name hnotin, hdef p.name ((Merge.lookup_none_iff cfg p.name).2 hnotin)]
+    have hpa := hparams p hp
+    cases hpd : p.default with
+    | optional => simp [hpd] at hno
+    | value v =>
+      simp only [hpd, beq_iff_eq] at hpa
+      rw [hpa]; simp
+    | unsettled =>
+      simp only [hpd] at hpa
+      cases hdo : defaultOf c.actions p.name with
+      | none => simp [hdo] at hpa
+      | some x => simp
+
+theorem rewriteLeaf_str_inv {s t : String} (h : rewriteLeaf (.str s) = .str t) : s = t := by
+  unfold rewriteLeaf at h
+  by_cases h1 : JVal.str s = .str "NaN"
+  · simp [h1] at h
+  · by_cases h2 : JVal.str s = .str "inf"
+    · simp [h2] at h
+    · by_cases h3 : JVal.str s = .str "-inf"
+      · simp [h3] at h
+      · simpa [h1, h2, h3] using h
+
+/-- **the executable specification of the result holds of the model** (`ConfigSpec.resultOk`, the
+    clause the harness evaluates on the implementation's result: the user's steps in the user's order,
+    each with the user's items as a prefix (`userKeysKept`) and exactly the missing documented
+    parameters added with the documented defaults (`defaultsAdded`)) — for step parameters that are
+    not themselves dictionaries (`resultOk` rewrites one level only) -/
+theorem checkPipelineSection_resultOk {o : Oracle} {fl : MachineFlags} {P : Dict} {l r : ImgInfo}
+    {m m' : CState} {out : Dict} (hfresh : FreshFor fl m) (hwf : Merge.wfDict P = true)
+    (hleaf : ∀ n cfgU, Dict.lookup P n = some (.obj cfgU) → ∀ kv ∈ cfgU, kv.2.isObj = false)
+    (h : checkPipelineSection o fl registry [("pipeline", .obj P)] l r m = .ok (out, m')) :
+    resultOk P m'.pipelineCfg = true := by
+  obtain ⟨_, hkeys, hsteps⟩ := checkPipelineSection_structure hfresh hwf h
+  have hndP := Merge.wfDict_keys_nodup P hwf
+  unfold resultOk
+  simp only [Bool.and_eq_true, beq_iff_eq, List.all_eq_true]
+  refine ⟨hkeys, ?_⟩
+  intro kv hkv
+  obtain ⟨n, v⟩ := kv
+  have hl := Merge.lookup_of_mem P n v hndP hkv
+  obtain ⟨kind, cfgU, kd, outn, hkind, hP, hkd, hc, hM⟩ := hsteps n (Merge.mem_keys_of_lookup hl)
+  rw [hl] at hP
+  simp only [Option.some.injEq] at hP
+  subst hP
+  simp only [hM, hkind, Bool.and_eq_true]
+  obtain ⟨hcw, hcf⟩ := wf_of_step hwf hl
+  obtain ⟨hkdm, hkk⟩ := kindDesc_some hkd
+  obtain ⟨meth, c, hmeth, hall, hmn, hcc, ⟨X, hX⟩, hkept, _, how, _⟩ := construct_facts hkdm hcw hcf hc
+  have hndO := Merge.wfDict_keys_nodup outn how
+  have hlv := hleaf n cfgU hl
+  have hrd : Merge.deepRwD cfgU = rewriteDict cfgU := deepRwD_leaves cfgU hlv
+  have hlen : (Merge.deepRwD cfgU).length = cfgU.length := by
+    have := congrArg List.length (Merge.keys_deepRwD cfgU)
+    simpa [Dict.keys] using this
+  constructor
+  · -- the user's items are a prefix of the returned step
+    unfold userKeysKept
+    rw [← hlen, take_of_keys_prefix _ outn X hX hndO hkept, hrd]
+    simp
+  · cases hfind : docTable.find? (fun c => c.kind == kind.name) with
+    | none => rfl
+    | some anyClass =>
+      simp only
+      cases hmk : Dict.lookup cfgU anyClass.methodKey with
+      | none => rfl
+      | some mv =>
+        cases mv with
+        | str mth =>
+          simp only
+          cases hdc : docClass? kind.name mth with
+          | none => rfl
+          | some d =>
+            simp only
+            -- the method key and the method are the ones the registry used
+            have hany := List.mem_of_find?_eq_some hfind
+            have hanyk : anyClass.kind = kind.name := by simpa using List.find?_some hfind
+            have hmka := method_keys_agree
+            rw [List.all_eq_true] at hmka
+            have h1 := hmka anyClass hany
+            rw [List.all_eq_true] at h1
+            have h2 := h1 kd hkdm
+            simp only [Bool.or_eq_true, bne_iff_ne, ne_eq, beq_iff_eq] at h2
+            have hmkeq : kd.methodKey = anyClass.methodKey := by
+              rcases h2 with h2 | h2
+              · exact absurd (by rw [hkk, hanyk]) h2
+              · exact h2
+            rw [hmkeq, Merge.lookup_deepRwD, hmk] at hmeth
+            simp only [Option.map_some, Option.some.injEq] at hmeth
+            rw [Merge.deepRw_leaf _ rfl] at hmeth
+            have hme := rewriteLeaf_str_inv hmeth
+            subst hme
+            -- the documented class
+            have hdoc := generated_defaults_documented
+            rw [List.all_eq_true] at hdoc
+            have hdoc1 := hdoc _ hall
+            rw [List.all_eq_true] at hdoc1
+            have hdoc2 := hdoc1 mth hmn
+            simp only [hkk, hdc] at hdoc2
+            exact classCheck_defaultsAdded (generated_wf_of_mem hall) hdoc2 (Merge.keys_deepRwD cfgU) hndO hkept hcc
+        | _ => rfl
 
 end Pandora.C05W
